@@ -64,6 +64,7 @@ type TermTable struct {
 	Vars  []*Term
 	varBy map[string]*Term
 	fpMemo map[*Term]bool
+	bMemo  map[*Term]float64
 }
 
 func NewTermTable() *TermTable {
@@ -595,9 +596,74 @@ func (tt *TermTable) FBin(op string, a, b *Term) *Term {
 	return tt.mk(op, a.S, [2]int{}, a, b)
 }
 
+// fpBound returns a magnitude bound for t when t is provably finite and not NaN (conversions of
+// integers, constants, and sums/products/quotients-by-constants of such terms that cannot overflow).
+func (tt *TermTable) fpBound(t *Term) (float64, bool) {
+	if tt.bMemo == nil {
+		tt.bMemo = map[*Term]float64{}
+	}
+	if v, ok := tt.bMemo[t]; ok {
+		return v, v >= 0
+	}
+	b, ok := tt.fpBound0(t)
+	if !ok || b > 1e290 {
+		tt.bMemo[t] = -1
+		return 0, false
+	}
+	tt.bMemo[t] = b
+	return b, true
+}
+
+func (tt *TermTable) fpBound0(t *Term) (float64, bool) {
+	if !isFP(t.S) {
+		return 0, false
+	}
+	if t.Const {
+		if t.F != t.F || math.IsInf(t.F, 0) {
+			return 0, false
+		}
+		return math.Abs(t.F), true
+	}
+	switch t.Op {
+	case "to_fp_s", "to_fp_u":
+		return math.Ldexp(1, t.Args[0].S.W), true
+	case "fp.neg", "fp.abs", "fp.roundToIntegral", "fp.to_fp":
+		return tt.fpBound(t.Args[0])
+	case "fp.add", "fp.sub":
+		a, ok1 := tt.fpBound(t.Args[0])
+		b, ok2 := tt.fpBound(t.Args[1])
+		return a + b, ok1 && ok2
+	case "fp.mul":
+		a, ok1 := tt.fpBound(t.Args[0])
+		b, ok2 := tt.fpBound(t.Args[1])
+		return a * b, ok1 && ok2
+	case "fp.div":
+		a, ok1 := tt.fpBound(t.Args[0])
+		d := t.Args[1]
+		if ok1 && d.Const && d.F == d.F && !math.IsInf(d.F, 0) && math.Abs(d.F) >= 1e-200 {
+			return a / math.Abs(d.F), true
+		}
+		return 0, false
+	case "ite":
+		a, ok1 := tt.fpBound(t.Args[1])
+		b, ok2 := tt.fpBound(t.Args[2])
+		return math.Max(a, b), ok1 && ok2
+	case "fp.sqrt":
+		// sqrt of a finite value is finite or NaN (negative argument): not claimed
+		return 0, false
+	}
+	return 0, false
+}
+
 func (tt *TermTable) FCmp(op string, a, b *Term) *Term {
 	if a.S != b.S || !isFP(a.S) {
 		panic("fp sort mismatch " + op)
+	}
+	if a == b && !a.Const {
+		if _, ok := tt.fpBound(a); ok {
+			// x op x for a value that is never NaN
+			return tt.Bool(op == "fp.eq" || op == "fp.leq")
+		}
 	}
 	if a.Const && b.Const {
 		switch op {
